@@ -255,6 +255,65 @@ def run(index, rep, tier):
         rep.check(keyok, "R01.5", g.qualname, "map keys/values", fn_where(g), "maps are keyed by the edge's own bipartition / split bitmask and hold that edge",
                   "the edge maps are keyed or filled with something other than the edge's own bipartition/split bitmask")
 
+    # ---- R01.9
+    with rep.section("R01.9"):
+        rep.rule("R01.9", "bit-level compatibility has the three-cell normal form: is_compatible_bitmasks answers True exactly when one of m1&m2, m1&~m2, ~m1&m2 is empty (within the fill mask) and never on ~m1&~m2; from_bipartition_encoding hands SPLIT masks to from_split_bitmasks")
+        f9 = index.function(BIP + ".is_compatible_bitmasks")
+        pnames = [p_ for p_ in f9.params if p_ not in ("self", "cls")]
+        if len(pnames) != 3:
+            raise AnalysisError("R01.9: is_compatible_bitmasks signature not recognised")
+        m1, m2, fill = pnames
+        defs = {}
+        cells_seen = {}
+        ntests = 0
+
+        def bit(e, env):
+            """per-bit value of a bitwise expression over (m1, m2, fill) bits"""
+            if isinstance(e, ast.Name):
+                if e.id in env:
+                    return env[e.id]
+                if e.id in defs:
+                    return bit(defs[e.id], env)
+                raise AnalysisError("R01.9: unknown name %s in is_compatible_bitmasks" % e.id)
+            if isinstance(e, ast.BinOp) and isinstance(e.op, (ast.BitAnd, ast.BitOr, ast.BitXor)):
+                a, b = bit(e.left, env), bit(e.right, env)
+                return a & b if isinstance(e.op, ast.BitAnd) else (a | b if isinstance(e.op, ast.BitOr) else a ^ b)
+            if isinstance(e, ast.UnaryOp) and isinstance(e.op, ast.Invert):
+                return 1 - bit(e.operand, env)
+            if isinstance(e, ast.Constant) and e.value in (0, 1):
+                return e.value
+            raise AnalysisError("R01.9: expression `%s` is not a bitwise formula" % norm(e)[:40])
+        for st in f9.node.body:
+            if isinstance(st, ast.Assign) and isinstance(st.targets[0], ast.Name):
+                defs[st.targets[0].id] = st.value
+            elif isinstance(st, ast.If) and names_in(st.test) <= {fill} and all(isinstance(x, ast.Assign) for x in st.body):
+                continue        # restriction of both masks to the fill mask: inside the fill, m & fill == m
+            elif isinstance(st, ast.If) and st.body and isinstance(st.body[0], ast.Return) and const_value(st.body[0].value) is True:
+                cp = compare_parts(st.test)
+                zero_test = cp and cp[1] == "Eq" and (const_value(cp[0]) == 0 or const_value(cp[2]) == 0)
+                if not zero_test:
+                    raise AnalysisError("R01.9: test `%s` is not of the form 0 == (a & b)" % norm(st.test)[:40])
+                expr = cp[2] if const_value(cp[0]) == 0 else cp[0]
+                ntests += 1
+                cells = frozenset((a, b) for a in (0, 1) for b in (0, 1) if bit(expr, {m1: a, m2: b, fill: 1}))
+                cells_seen[norm(st.test)] = (st, cells)
+        allowed = {frozenset({(1, 1)}), frozenset({(1, 0)}), frozenset({(0, 1)})}
+        covered = set()
+        for txt, (st, cells) in sorted(cells_seen.items()):
+            covered |= set(cells) if cells in allowed else set()
+            rep.check(cells in allowed, "R01.9", f9.qualname, "test `%s` is empty-cell test for %s" % (txt, sorted(cells)), fn_where(f9, st), "`%s` tests emptiness of the cell %s" % (txt, sorted(cells)),
+                      "is_compatible_bitmasks answers True when `%s`, i.e. when no taxon has (in m1, in m2) = %s: two clades are compatible iff they are disjoint or nested, so the only admissible cells are (1,1), (1,0) and (0,1); a test on (0,0) - 'together they cover everything' - declares overlapping, non-nested rooted clades compatible" % (txt, sorted(cells)))
+        rep.check(covered == {(1, 1), (1, 0), (0, 1)}, "R01.9", f9.qualname, "cells tested: %s" % sorted(covered), fn_where(f9), "disjointness and both nestings are tested", "is_compatible_bitmasks tests only the cells %s: disjoint / nested pairs of the missing kind are reported incompatible" % sorted(covered))
+        rep.floor("R01.9", "emptiness tests in is_compatible_bitmasks", 3, ntests)
+        fb = index.function(TREE + ".from_bipartition_encoding")
+        cs = [c for c in calls_in(fb.node) if call_name(c) == "from_split_bitmasks"]
+        v = get_kwarg(cs[0], "split_bitmasks") if cs else None
+        okw = False
+        if isinstance(v, ast.Name):
+            ds = [d.value for d in _assign_defs(fb.node, v.id) if isinstance(d, ast.Assign)]
+            okw = len(ds) == 1 and isinstance(ds[0], (ast.ListComp, ast.GeneratorExp)) and isinstance(ds[0].elt, ast.Attribute) and ds[0].elt.attr in ("split_bitmask", "_split_bitmask")
+        rep.check(okw, "R01.9", fb.qualname, "masks handed to from_split_bitmasks", fn_where(fb), "from_bipartition_encoding passes each bipartition's split_bitmask", "from_bipartition_encoding hands from_split_bitmasks something other than the bipartitions' SPLIT masks (a leafset mask of an unrooted tree is not normalised: its complement inside from_split_bitmasks can name a bit no taxon owns, and the clade is dropped as incompatible)")
+
     # ---- R01.7 / R01.8
     with rep.section("R01.7 / R01.8"):
         rep.rule("R01.7", "Tree-level predicates that take is_bipartitions_updated re-encode before reading the encoding unless told not to (freshness, shared engine with R04.1)")
